@@ -113,6 +113,7 @@ def setup(ctx, model):
             ref = ev.stack[-1][0] if getattr(ev, "stack", None) else ""
             if ref.startswith(WR + ":") or ".write_table" in ref or ".write_variables" in ref or ".write_output" in ref or "ModulusInterface." in ref:
                 value_tests.append((name, ref))
+                k.all() if hasattr(k, "all") else None
                 return False
             from ..sym import LIB
             if "numpy." + name not in LIB:
